@@ -2,13 +2,23 @@
    with each day's split ratio adjusted by g(next day)/g(day), changes no money figure; quantities reported for a day
    are multiplied by that day's factor.  The split-rescaling law is the instance g = r up to the split day, 1 after. *)
 From Coq Require Import QArith Qcanon ZArith List Bool Lqa Lia Sorted.
-Require Import CGT.Model.Num CGT.Model.Match CGT.Proofs.NumFacts CGT.Proofs.MatchFacts CGT.Proofs.MatchInv.
+Require Import CGT.Model.Num CGT.Model.Match CGT.Proofs.NumFacts CGT.Proofs.MatchFacts CGT.Proofs.MatchInv CGT.Proofs.PrepassFacts.
 Import ListNotations.
 Open Scope Qc_scope.
 
 (* ---------- scaling of comparisons, min and max ---------- *)
 Lemma Qc_pos_neq0 c : 0 < c -> c <> 0.
 Proof. intros H E. rewrite E in H. qc2q; lra. Qed.
+Lemma Qc_pos_neq0' c : 0 < c -> 0 <> c.
+Proof. intros H E. rewrite <- E in H. qc2q; lra. Qed.
+Lemma qeqb_scale a b c : c <> 0 -> qeqb (a * c) (b * c) = qeqb a b.
+Proof.
+  intros Hc. destruct (qeqb_spec a b) as [E|N]; destruct (qeqb_spec (a * c) (b * c)) as [E'|N']; try reflexivity; exfalso.
+  - apply N'. rewrite E. reflexivity.
+  - apply N. assert (X : (a - b) * c = 0) by (replace ((a - b) * c) with (a * c - b * c) by ring; rewrite E'; ring).
+    apply Qcmult_integral in X. destruct X as [X|X]; [|contradiction].
+    replace a with (a - b + b) by ring. rewrite X. ring.
+Qed.
 Lemma qltb_scale a b c : 0 < c -> qltb (a * c) (b * c) = qltb a b.
 Proof.
   intros Hc. destruct (qltb_spec a b) as [H|H]; destruct (qltb_spec (a * c) (b * c)) as [H'|H']; try reflexivity; exfalso.
@@ -54,6 +64,12 @@ Definition scale_leg (c : Qc) (l : leg) : leg :=
 Definition zero_offsets (offs : list plot) : Prop := forall z, offset_of offs z = 0.
 
 Lemma dt_scale c c' d : dt (scale_day c c' d) = dt d. Proof. reflexivity. Qed.
+Lemma sq_scale c c' d : sq (scale_day c c' d) = sq d * c. Proof. reflexivity. Qed.
+Lemma bq_scale c c' d : bq (scale_day c c' d) = bq d * c. Proof. reflexivity. Qed.
+Lemma hasbuy_scale c c' d : hasbuy (scale_day c c' d) = hasbuy d. Proof. reflexivity. Qed.
+Lemma hassell_scale c c' d : hassell (scale_day c c' d) = hassell d. Proof. reflexivity. Qed.
+Lemma ratio_scale c c' d : ratio (scale_day c c' d) = ratio d * c' / c. Proof. reflexivity. Qed.
+Lemma evs_scale c c' d : evs (scale_day c c' d) = evs d. Proof. reflexivity. Qed.
 Lemma sq'_scale c c' d : sq' (scale_day c c' d) = sq' d * c.
 Proof. unfold sq'. cbn [hassell sq scale_day]. destruct (hassell d); ring. Qed.
 Lemma bq'_scale c c' d : bq' (scale_day c c' d) = bq' d * c.
@@ -143,4 +159,274 @@ Section Gauge.
                    (b_cl (bnb_step offs d e R rem cl)) _ HR2 (fun x Hx => Hrat x (or_intror Hx)) C1 ER2) as (L2 & M2 & C2 & K2).
       cbn [b_legs b_rem b_cl b_crash]. rewrite L1, L2, map_app. repeat split; assumption.
   Qed.
+
+  (* ---------- one day ---------- *)
+  Lemma same_day_scale c c' d av : 0 < c ->
+    same_day_step offs' (scale_day c c' d) (av * c) =
+    (map (scale_leg c) (fst (fst (same_day_step offs d av))), snd (fst (same_day_step offs d av)) * c, snd (same_day_step offs d av) * c).
+  Proof.
+    intros Hc. pose proof (Qc_pos_neq0 _ Hc) as Hc0. unfold same_day_step. rewrite sq_scale, !qltb0_scale by exact Hc.
+    destruct (qltb 0 av); destruct (qltb_spec 0 (sq d)) as [E2|E2]; cbn [andb fst snd map]; try reflexivity.
+    assert (Hsq : sq d <> 0) by (apply not_eq_sym, Qc_pos_neq0'; exact E2).
+    rewrite qmin_scale by exact Hc. set (m := qmin (sq d) av). rewrite dt_scale.
+    replace (m * c * unit_cost offs' (scale_day c c' d)) with (m * unit_cost offs d)
+      by (rewrite <- (unit_cost_scale offs offs' c c' d Zo Zo' Hc0); ring).
+    rewrite mk_leg_scale by assumption. f_equal; [f_equal|]; ring.
+  Qed.
+
+  Lemma pool_step_scale c c' d s s' rem : 0 < c -> m_pq s' = m_pq s * c -> m_pc s' = m_pc s -> m_pooled s' = m_pooled s ->
+    pool_step (scale_day c c' d) s' (rem * c) =
+    (map (scale_leg c) (fst (fst (pool_step d s rem))), snd (fst (pool_step d s rem)) * c,
+     (fst (snd (pool_step d s rem)) * c, snd (snd (pool_step d s rem)))).
+  Proof.
+    intros Hc Eq Ec Ep. pose proof (Qc_pos_neq0 _ Hc) as Hc0. unfold pool_step. rewrite sq_scale, Eq, Ec, Ep, qltb0_scale, !qeqb0_scale by assumption.
+    destruct (qltb 0 rem); destruct (m_pooled s); destruct (qeqb_spec (m_pq s) 0) as [E3|E3]; destruct (qeqb_spec (sq d) 0) as [E4|E4];
+      cbn [andb negb fst snd map]; try reflexivity.
+    rewrite qmin_scale by exact Hc. set (m := qmin rem (m_pq s)).
+    replace (m * c * (m_pc s / (m_pq s * c))) with (m * (m_pc s / m_pq s)) by (field; split; assumption).
+    rewrite mk_leg_scale by assumption. f_equal; [f_equal|f_equal]; ring.
+  Qed.
+
+  Definition sell_tail (d : day) (s : mst) (sdl : list leg) (sdav : Qc) (bb : bres) : err + sres :=
+    if b_crash bb then inl (ECrashDivZero (dt d)) else
+    if qltb 0 (snd (fst (pool_step d s (b_rem bb)))) then
+      inl (if qeqb (snd (fst (pool_step d s (b_rem bb)))) (sq d) then ENoPrior (dt d) else EUnmatched (dt d))
+    else inr {| s_legs := sdl ++ b_legs bb ++ fst (fst (pool_step d s (b_rem bb))); s_av := sdav; s_cl := b_cl bb;
+                s_pq := fst (snd (pool_step d s (b_rem bb))); s_pc := snd (snd (pool_step d s (b_rem bb))) |}.
+
+  Lemma sell_step_tail w0 o s d fut av pos1 :
+    sell_step w0 o s d fut av pos1 =
+    if qltb pos1 (sq d) then inl (EExceedsHolding (dt d)) else
+    if qltb (av + m_pq s) (sq d) then inl (EExceedsHolding (dt d)) else
+    sell_tail d s (fst (fst (same_day_step o d av))) (snd (same_day_step o d av))
+      (if qeqb (sq d) 0 then bres0 (snd (fst (same_day_step o d av))) (m_cl s)
+       else bnb w0 o d fut (ratio d) (snd (fst (same_day_step o d av))) (m_cl s)).
+  Proof. reflexivity. Qed.
+
+  Definition sres_rel (c : Qc) (r r' : sres) : Prop :=
+    s_legs r' = map (scale_leg c) (s_legs r) /\ s_av r' = s_av r * c /\ claims_rel g (s_cl r) (s_cl r') /\
+    s_pq r' = s_pq r * c /\ s_pc r' = s_pc r.
+  Definition res_rel {A} (R : A -> A -> Prop) (x x' : err + A) : Prop :=
+    match x, x' with inl e, inl e' => e = e' | inr r, inr r' => R r r' | _, _ => False end.
+
+  Lemma sell_tail_scale c c' d s s' sdl sdav bb bb' : 0 < c ->
+    m_pq s' = m_pq s * c -> m_pc s' = m_pc s -> m_pooled s' = m_pooled s ->
+    b_legs bb' = map (scale_leg c) (b_legs bb) -> b_rem bb' = b_rem bb * c -> claims_rel g (b_cl bb) (b_cl bb') -> b_crash bb' = b_crash bb ->
+    res_rel (sres_rel c) (sell_tail d s sdl sdav bb) (sell_tail (scale_day c c' d) s' (map (scale_leg c) sdl) (sdav * c) bb').
+  Proof.
+    intros Hc Eq Ec Ep L M C K. pose proof (Qc_pos_neq0 _ Hc) as Hc0. unfold sell_tail.
+    rewrite K, M, (pool_step_scale c c' d s s' (b_rem bb) Hc Eq Ec Ep). cbn [fst snd]. rewrite sq_scale, dt_scale.
+    destruct (b_crash bb); [reflexivity|]. rewrite qltb0_scale, qeqb_scale by assumption.
+    destruct (qltb 0 (snd (fst (pool_step d s (b_rem bb))))); [reflexivity|].
+    unfold res_rel, sres_rel. cbn [s_legs s_av s_cl s_pq s_pc]. rewrite L, !map_app. repeat split; try reflexivity. exact C.
+  Qed.
+
+  Lemma sell_step_scale c d fut s s' av pos1 : 0 < c -> 0 < ratio d -> ratios_pos fut ->
+    m_pq s' = m_pq s * c -> m_pc s' = m_pc s -> m_pooled s' = m_pooled s -> claims_rel g (m_cl s) (m_cl s') ->
+    res_rel (sres_rel c) (sell_step w offs s d fut av pos1)
+      (sell_step w offs' s' (scale_day c (next_factor g gend fut) d) (gauge g gend fut) (av * c) (pos1 * c)).
+  Proof.
+    intros Hc Hrd Hrat Eq Ec Ep Hcl. pose proof (Qc_pos_neq0 _ Hc) as Hc0.
+    rewrite !sell_step_tail. rewrite sq_scale, dt_scale, qltb_scale by exact Hc.
+    destruct (qltb pos1 (sq d)); [reflexivity|].
+    rewrite Eq. replace (av * c + m_pq s * c) with ((av + m_pq s) * c) by ring. rewrite qltb_scale by exact Hc.
+    destruct (qltb (av + m_pq s) (sq d)); [reflexivity|].
+    rewrite same_day_scale by exact Hc. cbn [fst snd]. rewrite qeqb0_scale by exact Hc0.
+    apply sell_tail_scale; try assumption.
+    - destruct (qeqb_spec (sq d) 0) as [E|N]; [reflexivity|].
+      apply (bnb_scale c (next_factor g gend fut) d fut Hc N (ratio d) _ _ (m_cl s) (m_cl s') Hrd Hrat Hcl).
+      destruct fut; [exact I|]. reflexivity.
+    - destruct (qeqb_spec (sq d) 0) as [E|N]; [reflexivity|].
+      apply (bnb_scale c (next_factor g gend fut) d fut Hc N (ratio d) _ _ (m_cl s) (m_cl s') Hrd Hrat Hcl).
+      destruct fut; [exact I|]. reflexivity.
+    - destruct (qeqb_spec (sq d) 0) as [E|N]; [exact Hcl|].
+      apply (bnb_scale c (next_factor g gend fut) d fut Hc N (ratio d) _ _ (m_cl s) (m_cl s') Hrd Hrat Hcl).
+      destruct fut; [exact I|]. reflexivity.
+    - destruct (qeqb_spec (sq d) 0) as [E|N]; [reflexivity|].
+      apply (bnb_scale c (next_factor g gend fut) d fut Hc N (ratio d) _ _ (m_cl s) (m_cl s') Hrd Hrat Hcl).
+      destruct fut; [exact I|]. reflexivity.
+  Qed.
+
+  Definition disp_scale (dl : list (Z * list leg)) : list (Z * list leg) :=
+    map (fun p => (fst p, map (scale_leg (g (fst p))) (snd p))) dl.
+  Definition st_rel (c : Qc) (s s' : mst) : Prop :=
+    m_pq s' = m_pq s * c /\ m_pc s' = m_pc s /\ m_pooled s' = m_pooled s /\ claims_rel g (m_cl s) (m_cl s') /\
+    m_disp s' = disp_scale (m_disp s) /\ m_pos s' = m_pos s * c.
+
+  Definition day_fin (d : day) (s : mst) (u pos1 : Qc) (r : sres) : mst :=
+    {| m_pq := (if hasbuy d && qltb 0 (s_av r) then s_pq r + s_av r else s_pq r) * ratio d;
+       m_pc := if hasbuy d && qltb 0 (s_av r) then s_pc r + s_av r * u else s_pc r;
+       m_pooled := m_pooled s || (hasbuy d && qltb 0 (s_av r));
+       m_cl := s_cl r;
+       m_disp := m_disp s ++ (match s_legs r with [] => [] | _ => [(dt d, s_legs r)] end);
+       m_pos := (pos1 - sq' d) * ratio d |}.
+
+  Lemma day_step_fin w0 o s d fut :
+    day_step w0 o s d fut =
+    if hasbuy d && qltb (bq d) (if hasbuy d then claim_of (m_cl s) (dt d) else 0) then inl (EResvExceeds (dt d)) else
+    match (if hassell d then sell_step w0 o s d fut (if hasbuy d then bq d - (if hasbuy d then claim_of (m_cl s) (dt d) else 0) else 0) (m_pos s + bq' d)
+           else inr {| s_legs := []; s_av := (if hasbuy d then bq d - (if hasbuy d then claim_of (m_cl s) (dt d) else 0) else 0);
+                       s_cl := m_cl s; s_pq := m_pq s; s_pc := m_pc s |}) with
+    | inl e => inl e
+    | inr r => inr (day_fin d s (unit_cost o d) (m_pos s + bq' d) r)
+    end.
+  Proof. reflexivity. Qed.
+
+  Lemma day_fin_scale d c' s s' u u' pos1 r r' : 0 < g (dt d) -> st_rel (g (dt d)) s s' -> sres_rel (g (dt d)) r r' -> u' * g (dt d) = u ->
+    st_rel c' (day_fin d s u pos1 r) (day_fin (scale_day (g (dt d)) c' d) s' u' (pos1 * g (dt d)) r').
+  Proof.
+    set (c := g (dt d)). intros Hc (Eq & Ec & Ep & Hcl & Ed & Epos) (L & A & C & Q & P) Hu. pose proof (Qc_pos_neq0 _ Hc) as Hc0.
+    unfold st_rel, day_fin. cbn [m_pq m_pc m_pooled m_cl m_disp m_pos]. rewrite hasbuy_scale, ratio_scale, sq'_scale, dt_scale, A, Q, P, Ep, L, Ed.
+    rewrite qltb0_scale by exact Hc. repeat split.
+    - destruct (hasbuy d && qltb 0 (s_av r)); field; exact Hc0.
+    - destruct (hasbuy d && qltb 0 (s_av r)); [|reflexivity]. rewrite <- Hu. ring.
+    - exact C.
+    - unfold disp_scale. rewrite map_app. f_equal. destruct (s_legs r) as [|l ls]; reflexivity.
+    - field; exact Hc0.
+  Qed.
+
+  Lemma day_step_scale d fut s s' : 0 < ratio d -> ratios_pos fut -> st_rel (g (dt d)) s s' ->
+    res_rel (st_rel (next_factor g gend fut)) (day_step w offs s d fut)
+      (day_step w offs' s' (scale_day (g (dt d)) (next_factor g gend fut) d) (gauge g gend fut)).
+  Proof.
+    intros Hrd Hrat Hst. pose proof Hst as (Eq & Ec & Ep & Hcl & Ed & Epos).
+    set (c := g (dt d)) in *. assert (Hc : 0 < c) by apply gpos. pose proof (Qc_pos_neq0 _ Hc) as Hc0.
+    rewrite !day_step_fin. rewrite hasbuy_scale, hassell_scale, dt_scale, bq_scale, bq'_scale.
+    assert (Er : (if hasbuy d then claim_of (m_cl s') (dt d) else 0) = (if hasbuy d then claim_of (m_cl s) (dt d) else 0) * c).
+    { destruct (hasbuy d); [apply Hcl|ring]. }
+    rewrite Er. set (resv := if hasbuy d then claim_of (m_cl s) (dt d) else 0).
+    rewrite qltb_scale by exact Hc. destruct (hasbuy d && qltb (bq d) resv); [reflexivity|].
+    assert (Ea : (if hasbuy d then bq d * c - resv * c else 0) = (if hasbuy d then bq d - resv else 0) * c) by (destruct (hasbuy d); ring).
+    rewrite Ea. set (av := if hasbuy d then bq d - resv else 0).
+    rewrite Epos. replace (m_pos s * c + bq' d * c) with ((m_pos s + bq' d) * c) by ring.
+    assert (Hu : unit_cost offs' (scale_day c (next_factor g gend fut) d) * c = unit_cost offs d) by (apply unit_cost_scale; assumption).
+    destruct (hassell d).
+    - pose proof (sell_step_scale c d fut s s' av (m_pos s + bq' d) Hc Hrd Hrat Eq Ec Ep Hcl) as Hs.
+      destruct (sell_step w offs s d fut av (m_pos s + bq' d)) as [e|r];
+        destruct (sell_step w offs' s' (scale_day c (next_factor g gend fut) d) (gauge g gend fut) (av * c) ((m_pos s + bq' d) * c)) as [e'|r'];
+        cbn [res_rel] in Hs |- *; try contradiction; [exact Hs|].
+      apply day_fin_scale; assumption.
+    - cbn [res_rel]. apply day_fin_scale; try assumption.
+      unfold sres_rel. cbn [s_legs s_av s_cl s_pq s_pc map]. repeat split; assumption.
+  Qed.
+
+  (* ---------- the whole main pass ---------- *)
+  Lemma mainpass_scale ds : forall s s', ratios_pos ds -> st_rel (next_factor g gend ds) s s' ->
+    res_rel (st_rel gend) (mainpass w offs s ds) (mainpass w offs' s' (gauge g gend ds)).
+  Proof.
+    induction ds as [|d r IH]; intros s s' Hrat Hst; cbn [mainpass gauge].
+    - exact Hst.
+    - cbn [next_factor] in Hst.
+      pose proof (day_step_scale d r s s' (Hrat d (or_introl eq_refl)) (fun x Hx => Hrat x (or_intror Hx)) Hst) as Hd.
+      destruct (day_step w offs s d r) as [e|s1];
+        destruct (day_step w offs' s' (scale_day (g (dt d)) (next_factor g gend r) d) (gauge g gend r)) as [e'|s1'];
+        cbn [res_rel] in Hd |- *; try contradiction; [exact Hd|].
+      apply IH; [intros x Hx; apply Hrat; right; exact Hx|exact Hd].
+  Qed.
 End Gauge.
+
+(* ---------- ledgers without capital events: the pre-pass yields no offsets ---------- *)
+Definition noev (ds : list day) : Prop := forall d, In d ds -> evs d = [].
+Definition offs_zero (ls : list plot) : Prop := Forall (fun x => x = 0) (map pl_off ls).
+
+Lemma offs_zero_offset ls : offs_zero ls -> zero_offsets ls.
+Proof.
+  unfold offs_zero, zero_offsets, offset_of. induction ls as [|l r IH]; intros H z; cbn [map]; [reflexivity|].
+  cbn [map] in H. inversion H as [|x xs Hx Hr]; subst. rewrite qsum_cons, (IH Hr z), Hx. destruct (pl_dt l =? z)%Z; ring.
+Qed.
+
+Lemma prepass_noev ds : forall started ls, noev ds -> offs_zero ls ->
+  exists offs, prepass started ls ds = inr offs /\ offs_zero offs.
+Proof.
+  induction ds as [|d r IH]; intros started ls Hn Hz; cbn [prepass]; [exists ls; split; [reflexivity|exact Hz]|].
+  rewrite (Hn d (or_introl eq_refl)). cbn [apply_evs].
+  apply IH; [intros x Hx; apply Hn; right; exact Hx|].
+  assert (Hb : offs_zero (pre_add_buy d ls)).
+  { unfold pre_add_buy, offs_zero. destruct (hasbuy d); [|exact Hz]. rewrite map_app. apply Forall_app. split; [exact Hz|].
+    cbn [map pl_off new_lot]. constructor; [reflexivity|constructor]. }
+  destruct (hassell d && (started || hasbuy d)); [|exact Hb].
+  unfold offs_zero. rewrite pre_sell_off. exact Hb.
+Qed.
+
+Lemma gauge_noev g gend ds : noev ds -> noev (gauge g gend ds).
+Proof.
+  induction ds as [|d r IH]; intros Hn x Hx; cbn [gauge] in Hx; [destruct Hx|].
+  destruct Hx as [<-|Hx]; [rewrite evs_scale; apply Hn; left; reflexivity|].
+  apply IH; [intros y Hy; apply Hn; right; exact Hy|exact Hx].
+Qed.
+
+(* Main theorem: a change of units leaves every money figure alone and multiplies the share counts of each day by that day's factor. *)
+Theorem run_gauge (g : Z -> Qc) (gend : Qc) (w : Z) (ds : list day) :
+  (forall z, 0 < g z) -> ratios_pos ds -> noev ds ->
+  res_rel (st_rel g gend) (run w ds) (run w (gauge g gend ds)).
+Proof.
+  intros gpos Hrat Hn. unfold run.
+  destruct (prepass_noev ds false [] Hn (Forall_nil _)) as (offs & E & Z1).
+  destruct (prepass_noev (gauge g gend ds) false [] (gauge_noev g gend ds Hn) (Forall_nil _)) as (offs' & E' & Z2).
+  rewrite E, E'. apply mainpass_scale; try assumption; try (apply offs_zero_offset; assumption).
+  unfold st_rel, mst0, claims_rel, disp_scale. cbn [m_pq m_pc m_pooled m_cl m_disp m_pos map]. repeat split; try ring.
+  intros z. unfold claim_of. cbn [map]. rewrite qsum_nil. ring.
+Qed.
+
+(* ---------- the split-rescaling law as an instance ---------- *)
+Definition split_gauge (D : Z) (r : Qc) (z : Z) : Qc := if (z <=? D)%Z then r else 1.
+
+(* the ledger rewritten in the units current after day D's split of ratio r: quantities up to and including day D
+   multiplied by r, the factor r taken out of day D's ratio, everything else as it was *)
+Definition rescale_day (D : Z) (r : Qc) (d : day) : day :=
+  if (dt d <=? D)%Z then
+    {| dt := dt d; bq := bq d * r; bcost := bcost d; hasbuy := hasbuy d; sq := sq d * r; sgross := sgross d; sfees := sfees d;
+       hassell := hassell d; evs := evs d; ratio := if (dt d =? D)%Z then ratio d / r else ratio d |}
+  else d.
+
+Lemma Qc_1_neq_0 : (1 : Qc) <> 0.
+Proof. discriminate. Qed.
+
+Lemma scale_day_11 d : scale_day 1 1 d = d.
+Proof.
+  destruct d as [z b bc hb q sg sf hs es ra]. unfold scale_day; cbn [dt bq bcost hasbuy sq sgross sfees hassell evs ratio].
+  f_equal; try ring. field. exact Qc_1_neq_0.
+Qed.
+
+Lemma gauge_split D r ds : 0 < r -> sorted_days ds -> (In D (dates ds) \/ forall d, In d ds -> (D < dt d)%Z) ->
+  gauge (split_gauge D r) 1 ds = map (rescale_day D r) ds.
+Proof.
+  intros Hr. pose proof (Qc_pos_neq0 _ Hr) as Hr0. induction ds as [|d l IH]; intros Hs Hin; cbn [gauge map]; [reflexivity|].
+  destruct (sorted_cons_inv d l Hs) as [Hs' Hl].
+  assert (Hin' : In D (dates l) \/ forall x, In x l -> (D < dt x)%Z).
+  { destruct Hin as [Hin|Hin]; [|right; intros x Hx; apply Hin; right; exact Hx].
+    cbn [dates map In] in Hin. destruct Hin as [E|Hin]; [|left; exact Hin].
+    right. intros x Hx. rewrite <- E. apply Hl. exact Hx. }
+  rewrite (IH Hs' Hin'). f_equal.
+  unfold rescale_day, split_gauge at 1.
+  destruct (Z.leb_spec (dt d) D) as [Hle|Hgt].
+  - destruct (Z.eqb_spec (dt d) D) as [E|N].
+    + (* the split day: the next factor is 1 *)
+      assert (next_factor (split_gauge D r) 1 l = 1) as ->.
+      { destruct l as [|e l']; [reflexivity|]. cbn [next_factor]. unfold split_gauge.
+        pose proof (Hl e (or_introl eq_refl)). destruct (Z.leb_spec (dt e) D); [lia|reflexivity]. }
+      unfold scale_day. f_equal. field. exact Hr0.
+    + (* before it: the next day is not later than D *)
+      assert (next_factor (split_gauge D r) 1 l = r) as ->.
+      { destruct Hin as [Hin|Hin]; [|specialize (Hin d (or_introl eq_refl)); lia].
+        cbn [dates map In] in Hin. destruct Hin as [E|Hin]; [congruence|].
+        destruct l as [|e l']; [destruct Hin|]. cbn [next_factor]. unfold split_gauge.
+        destruct (Z.leb_spec (dt e) D) as [_|Hlt]; [reflexivity|]. exfalso.
+        cbn [dates map In] in Hin. destruct Hin as [E|Hin]; [lia|].
+        destruct (sorted_cons_inv e l' Hs') as [_ Hl']. apply in_map_iff in Hin. destruct Hin as (x & Ex & Hx).
+        specialize (Hl' x Hx). lia. }
+      unfold scale_day. f_equal. field. exact Hr0.
+  - (* after it *)
+    assert (next_factor (split_gauge D r) 1 l = 1) as ->.
+    { destruct l as [|e l']; [reflexivity|]. cbn [next_factor]. unfold split_gauge.
+      pose proof (Hl e (or_introl eq_refl)). destruct (Z.leb_spec (dt e) D); [lia|reflexivity]. }
+    apply scale_day_11.
+Qed.
+
+Theorem run_split_rescale (w D : Z) (r : Qc) (ds : list day) :
+  0 < r -> sorted_days ds -> In D (dates ds) -> ratios_pos ds -> noev ds ->
+  res_rel (st_rel (split_gauge D r) 1) (run w ds) (run w (map (rescale_day D r) ds)).
+Proof.
+  intros Hr Hs Hin Hrat Hn. rewrite <- (gauge_split D r ds Hr Hs (or_introl Hin)).
+  apply run_gauge; try assumption. intros z. unfold split_gauge. destruct (z <=? D)%Z; [exact Hr|]. qc2q; lra.
+Qed.
